@@ -13,9 +13,9 @@ set_option linter.unusedSectionVars false
 set_option linter.unusedSimpArgs false
 
 variable {K V : Type} [Field K] [LinearOrder K] [IsStrictOrderedRing K] [AddCommGroup V] [Module K V]
-variable (c : Cfg K) (ip : V → V → K) (mat : V → V) (j : V)
+variable (c : Cfg K) (ip : V → V → K) (nrm : V → K) (mat : V → V) (j : V)
 
-theorem staticLoop_done (f : Nat) (v : SSt K V) (h : ¬ v.info < -1) : staticLoop c ip mat j f v = v := by
+theorem staticLoop_done (f : Nat) (v : SSt K V) (h : ¬ v.info < -1) : staticLoop c ip nrm mat j f v = v := by
   cases f <;> simp [staticLoop, h]
 
 /-- the static state that corresponds to the eager loop state `s` at the start of iteration `i` -/
@@ -47,10 +47,10 @@ theorem staticInfo_decided (raise : Bool) (i mi ma : Nat) (info1 : Int) (h : inf
 
 /-- one step of the compiled loop simulates one iteration of the eager loop -/
 theorem step_sim (i : Nat) (hi : 1 ≤ i) (s : St K V) :
-    match eagerStep c ip mat j i s with
-    | .stop (.ok res) => (staticStep c ip mat j (sOf s i)).obs = res.obs ∧ 0 ≤ res.info
-    | .stop (.error _) => (staticStep c ip mat j (sOf s i)).info = -1
-    | .next s' => staticStep c ip mat j (sOf s i)
+    match eagerStep c ip nrm mat j i s with
+    | .stop (.ok res) => (staticStep c ip nrm mat j (sOf s i)).obs = res.obs ∧ 0 ≤ res.info
+    | .stop (.error _) => (staticStep c ip nrm mat j (sOf s i)).info = -1
+    | .next s' => staticStep c ip nrm mat j (sOf s i)
         = { sOf s' (i + 1) with info := if maxiterEff c ≤ i then (i : Int) else -2 } := by
   have hi1 : i - 1 + 1 = i := by omega
   have hiI : ¬ ((i : Int) < -1) := by omega
@@ -89,9 +89,9 @@ theorem step_sim (i : Nat) (hi : 1 ≤ i) (s : St K V) :
     produces the eager result (or `info = −1` where the eager loop raises) -/
 theorem loop_sim : ∀ (fuel i : Nat) (s : St K V) (fs : Nat), 1 ≤ i → 1 ≤ fuel → fuel ≤ fs →
     i + fuel = maxiterEff c + 1 →
-    match eagerLoop c ip mat j fuel i s with
-    | .ok res => (staticLoop c ip mat j fs (sOf s i)).obs = res.obs
-    | .error _ => (staticLoop c ip mat j fs (sOf s i)).info = -1 := by
+    match eagerLoop c ip nrm mat j fuel i s with
+    | .ok res => (staticLoop c ip nrm mat j fs (sOf s i)).obs = res.obs
+    | .error _ => (staticLoop c ip nrm mat j fs (sOf s i)).info = -1 := by
   intro fuel
   induction fuel with
   | zero => intro i s fs _ h; omega
@@ -99,21 +99,21 @@ theorem loop_sim : ∀ (fuel i : Nat) (s : St K V) (fs : Nat), 1 ≤ i → 1 ≤
     intro i s fs hi _ hfs hsum
     obtain ⟨fs', rfl⟩ : ∃ k, fs = k + 1 := ⟨fs - 1, by omega⟩
     have hstart : (sOf s i).info < -1 := by simp [sOf]
-    have hstep := step_sim c ip mat j i hi s
+    have hstep := step_sim c ip nrm mat j i hi s
     simp only [staticLoop, hstart, if_true, eagerLoop]
-    cases hE : eagerStep c ip mat j i s with
+    cases hE : eagerStep c ip nrm mat j i s with
     | stop r =>
       rw [hE] at hstep
       cases r with
       | ok res =>
         simp only at hstep ⊢
-        have hinfo : (staticStep c ip mat j (sOf s i)).info = res.info := by
+        have hinfo : (staticStep c ip nrm mat j (sOf s i)).info = res.info := by
           have := congrArg Obs.info hstep.1; simpa [SSt.obs, Res.obs] using this
-        rw [staticLoop_done _ _ _ _ _ _ (by rw [hinfo]; omega)]
+        rw [staticLoop_done _ _ _ _ _ _ _ (by rw [hinfo]; omega)]
         exact hstep.1
       | error e =>
         simp only at hstep ⊢
-        rw [staticLoop_done _ _ _ _ _ _ (by rw [hstep]; omega)]
+        rw [staticLoop_done _ _ _ _ _ _ _ (by rw [hstep]; omega)]
         exact hstep
     | next s' =>
       rw [hE] at hstep
@@ -123,18 +123,18 @@ theorem loop_sim : ∀ (fuel i : Nat) (s : St K V) (fs : Nat), 1 ≤ i → 1 ≤
       · subst h0
         have hm : maxiterEff c ≤ i := by omega
         simp only [hm, if_true, eagerLoop]
-        rw [staticLoop_done _ _ _ _ _ _ (by simp)]
+        rw [staticLoop_done _ _ _ _ _ _ _ (by simp)]
         simp [SSt.obs, Res.obs, sOf]
       · have hm : ¬ maxiterEff c ≤ i := by omega
         simp only [hm, if_false]
         have := ih (i + 1) s' fs' (by omega) hpos (by omega) (by omega)
         simpa [sOf] using this
 
-theorem staticStep_it (v : SSt K V) : (staticStep c ip mat j v).it = v.it + 1 := rfl
+theorem staticStep_it (v : SSt K V) : (staticStep c ip nrm mat j v).it = v.it + 1 := rfl
 
 /-- results of the eager loop: `info ≥ 0` and the iteration count stays within the budget -/
 theorem eagerLoop_range : ∀ (fuel i : Nat) (s : St K V), 1 ≤ i → ∀ res,
-    eagerLoop c ip mat j fuel i s = .ok res → 0 ≤ res.info ∧ i - 1 ≤ res.nit ∧ res.nit ≤ i + fuel - 1 := by
+    eagerLoop c ip nrm mat j fuel i s = .ok res → 0 ≤ res.info ∧ i - 1 ≤ res.nit ∧ res.nit ≤ i + fuel - 1 := by
   intro fuel
   induction fuel with
   | zero =>
@@ -144,9 +144,9 @@ theorem eagerLoop_range : ∀ (fuel i : Nat) (s : St K V), 1 ≤ i → ∀ res,
     simp
   | succ fuel ih =>
     intro i s hi res hres
-    have hstep := step_sim c ip mat j i hi s
+    have hstep := step_sim c ip nrm mat j i hi s
     rw [eagerLoop] at hres
-    cases hE : eagerStep c ip mat j i s with
+    cases hE : eagerStep c ip nrm mat j i s with
     | stop r =>
       rw [hE] at hstep hres
       simp only at hres
@@ -166,36 +166,36 @@ theorem eagerLoop_range : ∀ (fuel i : Nat) (s : St K V), 1 ≤ i → ∀ res,
 /-- `_static_cg` returns what `_cg` returns (and `info = −1` exactly where `_cg` raises), provided at least
     one iteration is allowed or the start is already a solution -/
 theorem static_sim (x0 : Option V) (hG : 0 < maxiterEff c ∨ (init ip mat j x0).gamma = 0) :
-    match cgEager c ip mat j x0 with
-    | .ok res => (cgStatic c ip mat j x0).obs = res.obs
-    | .error _ => (cgStatic c ip mat j x0).info = -1 := by
+    match cgEager c ip nrm mat j x0 with
+    | .ok res => (cgStatic c ip nrm mat j x0).obs = res.obs
+    | .error _ => (cgStatic c ip nrm mat j x0).info = -1 := by
   unfold cgEager cgStatic staticInit
   simp only []
   by_cases hz : (init ip mat j x0).gamma = 0
   · simp only [hz, if_true]
-    rw [staticLoop_done _ _ _ _ _ _ (by simp)]
+    rw [staticLoop_done _ _ _ _ _ _ _ (by simp)]
     simp [SSt.obs, Res.obs]
   · have hpos : 0 < maxiterEff c := by rcases hG with h | h; exact h; exact absurd h hz
     simp only [hz, if_false]
-    exact loop_sim c ip mat j (maxiterEff c) 1 (init ip mat j x0) (maxiterEff c + 1) (le_refl _) hpos
+    exact loop_sim c ip nrm mat j (maxiterEff c) 1 (init ip mat j x0) (maxiterEff c + 1) (le_refl _) hpos
       (by omega) (by omega)
 
 /-- the compiled loop always terminates within `maxiter + 1` steps of fuel: the returned `info` is decided -/
-theorem static_decided (x0 : Option V) : ¬ (cgStatic c ip mat j x0).info < -1 := by
+theorem static_decided (x0 : Option V) : ¬ (cgStatic c ip nrm mat j x0).info < -1 := by
   by_cases hG : 0 < maxiterEff c ∨ (init ip mat j x0).gamma = 0
-  · have h := static_sim c ip mat j x0 hG
-    cases hE : cgEager c ip mat j x0 with
+  · have h := static_sim c ip nrm mat j x0 hG
+    cases hE : cgEager c ip nrm mat j x0 with
     | ok res =>
       rw [hE] at h
       simp only at h
-      have hi : (cgStatic c ip mat j x0).info = res.info := by
+      have hi : (cgStatic c ip nrm mat j x0).info = res.info := by
         have := congrArg Obs.info h; simpa [SSt.obs, Res.obs] using this
       have hr : 0 ≤ res.info := by
         unfold cgEager at hE
         simp only at hE
         split_ifs at hE with hz
         · simp only [Except.ok.injEq] at hE; subst hE; simp
-        · exact (eagerLoop_range c ip mat j _ 1 _ (le_refl _) res hE).1
+        · exact (eagerLoop_range c ip nrm mat j _ 1 _ (le_refl _) res hE).1
       omega
     | error e =>
       rw [hE] at h
@@ -205,18 +205,18 @@ theorem static_decided (x0 : Option V) : ¬ (cgStatic c ip mat j x0).info < -1 :
     have hz : ¬ (init ip mat j x0).gamma = 0 := fun h => hG (Or.inr h)
     unfold cgStatic staticInit
     simp only [hm, hz, if_false, staticLoop]
-    have hstep := step_sim c ip mat j 1 (le_refl _) (init ip mat j x0)
+    have hstep := step_sim c ip nrm mat j 1 (le_refl _) (init ip mat j x0)
     have hs : sOf (init ip mat j x0) 1 = ⟨-2, (init ip mat j x0).pos, (init ip mat j x0).r,
         (init ip mat j x0).d, 0, (init ip mat j x0).gamma, (init ip mat j x0).energy⟩ := rfl
     rw [← hs]
     simp only [show ((-2 : Int) < -1) from by omega, if_true, sOf]
-    cases hE : eagerStep c ip mat j 1 (init ip mat j x0) with
+    cases hE : eagerStep c ip nrm mat j 1 (init ip mat j x0) with
     | stop r =>
       rw [hE] at hstep
       cases r with
       | ok res =>
         simp only at hstep
-        have hi : (staticStep c ip mat j (sOf (init ip mat j x0) 1)).info = res.info := by
+        have hi : (staticStep c ip nrm mat j (sOf (init ip mat j x0) 1)).info = res.info := by
           have := congrArg Obs.info hstep.1; simpa [SSt.obs, Res.obs] using this
         have := hstep.2
         simp only [sOf] at hi
